@@ -72,6 +72,7 @@ type Exec struct {
 	assertSyms   []assertInfo
 	idxTerms     []idxTerm
 	opaqueCalls  []string
+	skipSafety   bool // contract directive nosafety: panics of this function are the sweep's obligations
 	preWrap2     map[string]bool   // contract functions: stable site keys known (baseline) to need wrap-around
 	key2Count    map[string]int
 	siteKey2     map[string]string // process-local site key -> stable site key
